@@ -81,13 +81,20 @@ def plan(tier, seed):
     for i in range(len(ISO)):
         for e in range(len(ELEM)):
             tasks.append(("atom-grid", ("grid", i, e)))
+    els = sorted(misc.ELEMENTS)
+    scopes.append({"name": "every-element", "elements": len(els), "isotopes": ["", "13"], "chirality": CHIR,
+                   "H": ["", "H1", "H2"], "charges": ["", "+", "-", "+2"], "contexts": ["X", "CX", "C1XC1", "C(X)(F)Cl", "X=C"],
+                   "desc": "the symbol grammar of encoder and decoder are separate hand-written patterns: every element "
+                           "of the periodic table in every bracket form", "table": RELAXED})
+    for k in range(0, len(els), 8):
+        tasks.append(("every-element", ("elements", els[k:k + 8])))
     spans = list(range(1, 301)) + list(range(4088, 4097)) if not thorough else list(range(1, 4097, 1))
     scopes.append({"name": "index-spans", "n": "1..300 and 4088..4096" if not thorough else "1..4096",
                    "desc": "ring of span n, branch of length n, both nested", "table": "default"})
     for k in range(0, len(spans), 16):
         tasks.append(("index-spans", ("spans", spans[k:k + 16])))
     return {"scopes": scopes, "tasks": tasks, "bounds": {"topology": [nt, rt], "lenient_n": nl, "ba_n": nb},
-            "weight": lambda t: (t[1][1][-1] if t[1][0] == "spans" else (t[1][1] if t[1][0] != "grid" else 0))}
+            "weight": lambda t: (t[1][1][-1] if t[1][0] == "spans" else (t[1][1] if t[1][0] not in ("grid", "elements") else 0))}
 
 
 _SF = None
@@ -243,6 +250,14 @@ def run(task):
                             "spellings of the same atom %r map to different symbols: %r" % (mean, d))
             else:
                 r.validated += 1
+    elif kind == "elements":
+        for el in arg[1]:
+            for iso, chir, h, chg in itertools.product(["", "13"], CHIR, ["", "H1", "H2"], ["", "+", "-", "+2"]):
+                sp = "[%s%s%s%s%s]" % (iso, el, chir, h, chg)
+                r.states += 1
+                for ctx in ("%s", "C%s", "C1%sC1", "C(%s)(F)Cl", "%s=C"):
+                    smi = ctx % sp
+                    last = (smi, check(smi, RELAXED, r))
     else:
         _, ns = arg
         for n in ns:
